@@ -16,6 +16,14 @@ DEMO[C37]="c37_demo_test.go:utils/parser"; RUN[C37]="TestC37"
 DEMO[C20]="c20_demo_test.go:utils/parser"; RUN[C20]="TestC20TokenizerNeverPanics"
 DEMO[C23]="c23_demo_test.go:builtins/core/structs"; RUN[C23]="TestC23"
 DEMO[C09]="c09_demo_test.go:builtins/core/expressions"; RUN[C09]="TestC09Demo"
+DEMO[C07]="c07_demo_test.go:builtins/core/structs"; RUN[C07]="TestC07"
+DEMO[C08]="c08_demo_test.go:lang/expressions"; RUN[C08]="TestC08"
+DEMO[C10]="c10_demo_test.go:."; RUN[C10]="TestC10"
+DEMO[C11]="c11_demo_test.go:builtins/core/typemgmt"; RUN[C11]="TestC11"
+DEMO[C12]="variables_c12_demo_test.go:lang"; RUN[C12]="TestC12Demo"
+DEMO[C13]="c13_demo_test.go:lang/types"; RUN[C13]="TestC13Demo"
+DEMO[C18]="demo_c18_test.go:builtins/core/mkarray"; RUN[C18]="TestDemoC18"
+DEMO[C38]="c38_demo_test.go:builtins/core/lists"; RUN[C38]="TestC38"
 for id in "$@"; do
   f=${DEMO[$id]%%:*}; d=${DEMO[$id]##*:}
   cd $W; git checkout -q -- .; git clean -fdq
